@@ -105,7 +105,9 @@ where
                     .periodic_images(position, 3, false)
                     .map(|p| self.shape.transform(&p))
                 {
-                    sum += shape1.energy(&shape2);
+                    // A pair of periodic images is visited twice, once starting from each of the shapes,
+                    // while a pair within the cell is only visited once.
+                    sum += 0.5 * shape1.energy(&shape2);
                 }
             }
         }
